@@ -240,6 +240,8 @@ def py_sel(s):
         return int(s['v'])
     if s['k'] == 'list':
         return [int(x) for x in s['v']]
+    if s['k'] == 'bool':
+        return np.array([bool(x) for x in s['v']])
     h, v = s['h'], s['v']
     return slice(*[(int(v[i]) if h[i] else None) for i in range(3)])
 
@@ -594,6 +596,11 @@ class Shadow(object):
 
 def rsel(rnd, n, kinds=('int', 'slice', 'list')):
     k = rnd.choice(kinds)
+    if k == 'bool':
+        bits = [rnd.randint(0, 1) for _ in range(n)]
+        if n > 0 and not any(bits):
+            bits[rnd.randrange(n)] = 1
+        return {'k': 'bool', 'v': bits}
     if k == 'int':
         return {'k': 'int', 'v': rnd.randint(-n, n - 1) if n > 0 else 0}
     if k == 'list':
@@ -649,6 +656,11 @@ def _gen_step(rnd, sh, src, shadows, focus=None, strict=False):
         ds = rnd.sample(dims, nd)
         kinds = ('int', 'slice', 'list')
         a['sels'] = [{'d': d, 's': rsel(rnd, sh.dims[d], kinds)} for d in ds]
+        # a boolean index array on one dimension (the others: integers/slices)
+        if rnd.random() < 0.15 and sh.dims[ds[0]] > 0:
+            a['sels'] = [{'d': d, 's': rsel(rnd, sh.dims[d], ('int', 'slice'))}
+                         for d in ds]
+            a['sels'][0]['s'] = rsel(rnd, sh.dims[ds[0]], ('bool',))
         # equal-length lists when several
         ls = [s for s in a['sels'] if s['s']['k'] == 'list']
         if len(ls) > 1:
